@@ -7,42 +7,39 @@
 From Coq Require Import QArith List Bool PArith Arith.
 From PV Require Import Base.PyData Base.Expr Base.Stmts C07.Model C07.Proofs.
 
-(* make_declarative leaves the final value of EVERY symbol unchanged, provided no stale capture
-   happens (g_no_stale_capture: no stored expression is substituted after a symbol it mentions was
-   reassigned; false exactly on the reproduced defect, see Refuted.declarative_refuted). *)
+(* make_declarative leaves the final value of EVERY symbol unchanged on EVERY valid model (g_valid: every
+   symbol is a parameter / rv / column or defined before it is read, no statement assigns a parameter / rv /
+   column, amounts are defined by their system).  No guard about the program's shape: the stale-capture
+   defect (finding C07-DECL-STALE-CAPTURE) is fixed in /repo (0e1c190). *)
 Theorem declarative_preserves :
+  forall (known : list id) (l : list stm), g_valid known l = true ->
+  forall (fi : finterp) (ode : id -> list (option Q) -> option Q) (r : env) (x : id),
+    sexec fi ode r (declarative l) x = sexec fi ode r l x.
+Proof. exact declarative_correct_lemma. Qed.
+
+(* ... and on arbitrary programs (also ones that assign parameters or read symbols before their definition)
+   whenever no pending expression is substituted after a symbol it mentions was re-assigned. *)
+Theorem declarative_preserves_general :
   forall (l : list stm), g_no_stale_capture l = true ->
   forall (fi : finterp) (ode : id -> list (option Q) -> option Q) (r : env) (x : id),
     sexec fi ode r (declarative l) x = sexec fi ode r l x.
 Proof. intros l H fi ode. exact (declarative_preserves_lemma fi ode l H). Qed.
+
+Theorem valid_no_stale_capture :
+  forall (known : list id) (l : list stm), g_valid known l = true -> g_no_stale_capture l = true.
+Proof. exact guard_on_valid. Qed.
 
 (* The bookkeeping of make_declarative is consistent for EVERY program: the table of duplicate
    indices built by the first loop drives the second loop so that `current` is empty at the end (every
    pending expression is emitted by the last assignment of its symbol; `del current[...]` never
    raises KeyError). *)
 Theorem declarative_table_consistent :
-  forall (l : list stm), decl_final_gen false l 0 nil (dup_table l) = nil.
-Proof. exact (decl_final_empty false). Qed.
-
-(* The proposed one-line repair of make_declarative (`current[s.symbol] = s.expression.subs(current)`
-   in the first-occurrence branch; Model.declarative_patched) needs no raw-capture conjunct ... *)
-Theorem declarative_patched_preserves :
-  forall (l : list stm), g_no_stale_capture_patched l = true ->
-  forall (fi : finterp) (ode : id -> list (option Q) -> option Q) (r : env) (x : id),
-    sexec fi ode r (declarative_patched l) x = sexec fi ode r l x.
-Proof. intros l H fi ode. exact (declarative_patched_preserves_lemma fi ode l H). Qed.
-
-(* ... and is correct on EVERY valid model: no statement assigns a parameter / rv / column, every symbol
-   is assigned (or defined by its compartmental system) before it is read (g_valid, what Model.create
-   accepts apart from shadowing).  So the repair removes finding C07-DECL-STALE-CAPTURE altogether. *)
-Theorem declarative_patched_correct :
-  forall (known : list id) (l : list stm), g_valid known l = true ->
-  forall (fi : finterp) (ode : id -> list (option Q) -> option Q) (r : env) (x : id),
-    sexec fi ode r (declarative_patched l) x = sexec fi ode r l x.
-Proof. exact declarative_patched_correct_lemma. Qed.
+  forall (l : list stm), decl_final_gen true l 0 nil (dup_table l) = nil.
+Proof. exact (decl_final_empty true). Qed.
 
 (* cleanup_model's inlining loop leaves every symbol except the removed aliases unchanged, provided
-   no alias points to an alias and nothing an alias involves is reassigned (g_inline_ok). *)
+   nothing an alias involves is reassigned while it is pending (g_inline_ok; chains of aliases need no
+   side condition since 185d1d3). *)
 Theorem inline_preserves :
   forall (l : list stm), g_inline_ok l = true ->
   forall (fi : finterp) (ode : id -> list (option Q) -> option Q) (r : env) (x : id),
@@ -104,13 +101,13 @@ Theorem cleanup_params_spec :
                                                  ~ In p (akeys (fixed_after fixed dists)).
 Proof. exact cleanup_params_exact. Qed.
 
-(* ... so every variance parameter of a distribution that stays in the model stays a parameter,
-   provided no such parameter is fixed (g_fixed_are_thetas: the function is documented to replace
-   fixed THETAS but replaces every fixed parameter, see Refuted.replace_fixed_dangling_refuted). *)
+(* ... and replace_fixed_thetas never removes a parameter that a remaining distribution uses (no guard since
+   142d5a3; the hypothesis excludes only a zero-fixed parameter shared with a REMOVED distribution, which
+   replace_non_random_rvs removes). *)
 Theorem cleanup_keeps_rv_params :
   forall (fixed : list (id * Q)) (dists : list dist) (params : list id) (p : id),
-    g_fixed_are_thetas fixed dists = true ->
     In p (flat_map d_params (kept_dists fixed dists)) -> In p params ->
+    ~ In p (removed_params fixed dists) ->
     In p (cleanup_params fixed dists params).
 Proof. exact cleanup_keeps_rv_params_lemma. Qed.
 
@@ -137,19 +134,19 @@ Theorem unused_removed_irrelevant :
     sexec fi ode (upd r p q) l x = sexec fi ode r l x.
 Proof. exact unused_irrelevant. Qed.
 
-(* get_observation_expression evaluates to the value execution gives the dependent variable,
-   provided the FIRST assignment of the dependent variable is its only one (g_dv_single; the
-   extractor looks at the first assignment, see Refuted.obs_expr_refuted). *)
+(* get_observation_expression evaluates to the value execution gives the dependent variable — for every
+   program on which it answers, however often the dependent variable is assigned (df3152c).  The only
+   hypothesis is representational: the dependent variable is a symbol, not a compartment amount A_x(t). *)
 Theorem obs_expr_sound :
   forall (fi : finterp) (ode : id -> list (option Q) -> option Q) (l : list stm) (dv : id) (y : expr) (r : env),
-    obs_expr l dv = Some y -> g_dv_single l dv = true -> eval r fi y = sexec fi ode r l dv.
+    obs_expr l dv = Some y -> ~ In dv (amounts l) -> eval r fi y = sexec fi ode r l dv.
 Proof. exact obs_expr_sound_lemma. Qed.
 
 (* get_individual_prediction_expression: the observation at epsilon = 0 *)
 Theorem ipred_expr_sound :
   forall (fi : finterp) (ode : id -> list (option Q) -> option Q) (l : list stm) (dv : id) (epss : list id)
          (y : expr) (r : env),
-    ipred_expr l dv epss = Some y -> g_dv_single l dv = true ->
+    ipred_expr l dv epss = Some y -> ~ In dv (amounts l) ->
     eval r fi y = sexec fi ode (upd_map r fi (zeros epss)) l dv.
 Proof. exact ipred_expr_sound_lemma. Qed.
 
